@@ -126,11 +126,14 @@ def finish(res, pc, lines, prop, seed, mode, partial=False):
 
 def run(ctx, prop):
     nprog = ctx.n(30000, 400000)
-    per = max(1, nprog // core.NCPU)
+    # Several processes per core: the loop's per-descriptor arrays grow only
+    # once in the life of a process, so more processes = more growth histories.
+    nproc = core.NCPU * 4
+    per = max(1, nprog // nproc)
     jobs = []
     for mode in (0, 1):
         exe = build(ctx, bool(mode))
-        for i in range(core.NCPU):
+        for i in range(nproc):
             jobs.append((exe, ctx.seed * 1000003 + 17, i * per, per, prop, mode))
     results = core.pmap(shard, jobs)
     core.merge(ctx, results)
@@ -139,7 +142,7 @@ def run(ctx, prop):
             ctx.add_sample(s[:1500])
     ctx.cov['pool_modes'] = ['real mpool', 'pass-through (ASan sees every eventrec reuse)']
     ctx.cov['rule'] = ('one evaluation = one random program (3..40 top-level steps of register/cancel/reset/advance/'
-                       'flip-readiness actions over 12 descriptors, 32 priorities, timeouts incl. 0 and ties; callbacks '
+                       'flip-readiness actions over 12 (one program in eight: 40) descriptors, 32 priorities, timeouts incl. 0 and ties; callbacks '
                        'follow pre-drawn scripts that register, cancel (own other direction, not-yet-dispatched ready '
                        'descriptors, absent ones), reset, consume readiness, return non-zero or interrupt) executed by the '
                        'real loop on the simulated kernel, followed by a drain; every program is non-trivial (it ends with '
